@@ -143,7 +143,7 @@ MATH_FUNCS = {
     'sqrt': sp.sqrt, 'exp': sp.exp, 'log': sp.log, 'abs': sp.Abs, 'fabs': sp.Abs,
     'atan2': sp.atan2, 'floor': sp.floor, 'ceil': sp.ceiling,
     'hypot': lambda a, b: sp.sqrt(a * a + b * b), 'cbrt': lambda a: sp.real_root(a, 3), 'sinh': sp.sinh, 'cosh': sp.cosh, 'tanh': sp.tanh,
-    'asinh': sp.asinh, 'acosh': sp.acosh, 'atanh': sp.atanh,
+    'asinh': sp.asinh, 'acosh': sp.acosh, 'atanh': sp.atanh, 'copysign': lambda a, b: sp.Abs(a) * sp.sign(b),
     'log2': lambda a: sp.log(a, 2), 'log10': lambda a: sp.log(a, 10), 'log1p': lambda a: sp.log(1 + a), 'expm1': lambda a: sp.exp(a) - 1,
 }
 
